@@ -1012,3 +1012,11 @@ impl DebugSession {
         )
     }
 }
+
+/// Verification hook (add-only): the private hit-condition parser, for differential runs in isolation.
+#[cfg(feature = "verif")]
+impl HitCondition {
+    pub fn verif_parse(input: &str) -> Self {
+        Self::parse(input)
+    }
+}
